@@ -37,13 +37,21 @@ def _one(item):
         if route == 'numpy':
             writers.numpy_to_sgz(p, cube, writers.rate_arg(rate), bs)
             src = cube
-        elif route in ('segy', 'segy-iops', 'segy-ibm'):
+        elif route in ('segy', 'segy-iops', 'segy-ibm', 'segy-reuse'):
             sgy = os.path.join(d, f'h{k}.sgy')
             inputs.write_segy(sgy, cube, np.arange(shape[0]) + 1, np.arange(shape[1]) + 1, np.arange(shape[2]) * 4.0,
                               fmt=1 if route == 'segy-ibm' else 5)
             with segyio.open(sgy, strict=False) as f:
                 src = np.stack([np.asarray(f.trace[t]) for t in range(f.tracecount)]).astype(np.float32)
-            writers.segy_to_sgz(sgy, p, writers.rate_arg(rate), bs, reduce_iops=(route == 'segy-iops'))
+            if route == 'segy-reuse':       # one converter object used for several outputs: the last one is judged
+                from seismic_zfp.conversion import SegyConverter
+                with env.quiet():
+                    with SegyConverter(sgy) as cv:
+                        cv.run(p + '.first', bits_per_voxel=16, blockshape=None)
+                        cv.run(p, bits_per_voxel=writers.rate_arg(rate), blockshape=bs)
+                os.remove(p + '.first')
+            else:
+                writers.segy_to_sgz(sgy, p, writers.rate_arg(rate), bs, reduce_iops=(route == 'segy-iops'))
         else:   # 2d
             sgy = os.path.join(d, f'h{k}.sgy')
             hdrs = [{segyio.TraceField.CDP: t + 1, segyio.TraceField.CDP_X: 10 * t} for t in range(shape[0])]
@@ -85,6 +93,8 @@ def plan(run):
         for route in ('numpy', 'segy', 'segy-iops', 'segy-ibm'):
             if not (route == 'numpy' and bs is None):
                 P.append((route, shape, rate, bs, None))
+    for shape, rate, bs in (((5, 6, 70), 8, None), ((9, 4, 33), 32, (8, 8, 16))):
+        P.append(('segy-reuse', shape, rate, bs, None))
     shapes2 = [(9, 70), (4, 8), (21, 33), (2, 2)] if quick else [(9, 70), (4, 8), (21, 33), (2, 2), (16, 64), (17, 65), (33, 300)]
     for shape in shapes2:
         for rate, bs in ((8, (1, 4, -1)), (16, (1, 16, -1)), (4, None), (32, (1, 8, 128))):
